@@ -58,6 +58,9 @@ CHECKS = {
  "C13": ("exploration", "exhaustive enumeration of (syntax target, grammar fragment, spelling) against syn's own parse of the fragment; bare / in-list / invisible-group / quoted spellings cross-checked",
          "odometer", "45 syntax-valued targets x ~110 fragments (quick) / +~430 second-level compositions (thorough) in up to six spellings: accepted bare values print token-for-token as written, quoted values equal syn's parse of the contents and are accepted exactly when it succeeds, all spellings agree, rejections are spanned; parse_expr helpers differ only on string literals",
          "syn::parse_str::<T> is 'the same grammar'; token comparison ignores the renderer's spacing", "DESIGN.md §4 C13"),
+ "C15": ("model_checking", "bounded-exhaustive enumeration of token streams (grammar + all single-token mutations) against an independent segmentation recogniser; exhaustive (hook-subset, item form, hook behaviour) table against the documented routing chain",
+         "odometer", "parse_meta_list agrees with the recogniser on accept/reject, item count, order, class and token text and is a print/re-parse fixpoint; for all 128 subsets of overridden hooks every item form reaches exactly the documented hook or the documented default rejection, and hook errors come back spanned with the item unless pre-spanned",
+         "a chunk is an item iff syn parses it wholly as Lit or Meta; lists of <= 2 (quick) / 3 (thorough) items over 34 forms", "DESIGN.md §4 C15"),
 }
 PENDING = {}
 props = [json.loads(l) for l in open(os.path.join(V, "properties.jsonl"))]
